@@ -105,6 +105,9 @@ func init() {
 			},
 		}),
 	}
+	// a twin of the plain capsule type: the same name, the same Go type - and another type (capsule types are what
+	// they are by identity; whatever keys on how a type prints confuses the two)
+	capTypes = append(capTypes, cty.Capsule("verifplain", reflect.TypeOf(capPayload{})))
 	for ti := range capPayloads {
 		for i := range capPayloads[ti] {
 			capPayloads[ti][i] = &capPayload{N: i}
@@ -113,7 +116,7 @@ func init() {
 }
 
 // a fixed pool of payload pointers per capsule type, so that pointer identity is meaningful
-var capPayloads [2][12]*capPayload
+var capPayloads [3][12]*capPayload
 
 func (t *TDesc) Cty() cty.Type {
 	if t.cached != nil {
@@ -278,7 +281,7 @@ func genType(c *Ctx, depth int, o GenOpts) *TDesc {
 	case KDynamic:
 		return tDynamic
 	case KCapsule:
-		return &TDesc{K: KCapsule, Cap: c.G(2)}
+		return &TDesc{K: KCapsule, Cap: c.G(3)}
 	case KList, KSet, KMap:
 		return &TDesc{K: k, Elem: genType(c, depth-1, o)}
 	case KTuple:
@@ -392,10 +395,10 @@ func genNum(c *Ctx, collide bool) NumDesc {
 		d.Text = strconv.FormatFloat(f, 'g', -1, 64)
 	}
 	huge := false
-	if c.G(24) == 0 {
+	if c.G(48) == 0 {
 		// far beyond what float64 holds: a power of two (one significant bit, so every precision holds it exactly)
 		// or its neighbour at 53 bits, thousands of binary digits away from one
-		k := []int{1100, 4097, 5000, -1100, -4200}[c.G(5)]
+		k := []int{1100, 4097, 4100, -1100, 4097}[c.G(5)] // (small magnitudes this far out cost seconds to print)
 		f := new(big.Float).SetMantExp(big.NewFloat(1), k)
 		if c.G(3) == 0 {
 			f.SetPrec(53).Add(f, new(big.Float).SetMantExp(big.NewFloat(1), k-52))
@@ -971,7 +974,7 @@ func descSame(a, b *VDesc) Tri {
 	case KNumber:
 		return numSame(a.Num, b.Num)
 	case KCapsule:
-		if a.T.Cap == 0 {
+		if a.T.Cap != 1 {
 			return triOf(a.Cap == b.Cap)
 		}
 		return triOf(a.Cap%8 == b.Cap%8)
